@@ -13,9 +13,9 @@ inductive Prog where
   | block (ignore rel : Bool) (t : Int) (body : Prog)
   | tryCatch (body : Prog) (catches : List Exc) (handler : Prog)
   | raise (e : Exc)
-  /-- `async with TaskGroup() as g:` (wait = all) with members `(dur, react)` spawned on entry:
+  /-- `async with TaskGroup(wait=all|any) as g:` with members `(dur, react)` spawned on entry:
       a member sleeps `dur`; once cancelled it needs `react` more before it is dead -/
-  | group (members : List (Nat × Nat)) (body : Prog)
+  | group (anyp : Bool) (members : List (Nat × Nat)) (body : Prog)
   deriving Repr
 
 structure TS where
@@ -98,8 +98,9 @@ def aexit (fixed ignore : Bool) (self : Int) (r : Res) (s : TS) : Res × Bool ×
 /-! ### Task groups (the join / cancel semantics proved in C09, abstracted)
 
 A group entered at `T` has members finishing by themselves at `T + dur`.  Leaving the group:
-* body ended normally: `join()` - one suspension until the last member has finished (none if all
-  have); interrupted there (deadline / external cancel) it *sweeps*;
+* body ended normally: `join()` - wait = all: one suspension until the last member has finished
+  (none if all have); wait = any: until the first one has (none if one already has), then the
+  others are swept; interrupted while waiting (deadline / external cancel) it *sweeps*;
 * body raised (a cancellation included): `cancel_remaining()` sweeps at once, then `join()` finds
   everybody finished;
 * a sweep cancels every member still running and awaits them: one suspension as long as the
@@ -110,6 +111,11 @@ A group entered at `T` has members finishing by themselves at `T + dur`.  Leavin
 def maxNat : List Nat → Nat
   | [] => 0
   | x :: xs => if maxNat xs < x then x else maxNat xs
+
+def minNat : List Nat → Nat
+  | [] => 0
+  | [x] => x
+  | x :: y :: ys => if x < minNat (y :: ys) then x else minNat (y :: ys)
 
 /-- members (spawned at `T`) that have not finished by themselves at `now` -/
 def runningAt (T : Int) (ms : List (Nat × Nat)) (now : Int) : List (Nat × Nat) :=
@@ -124,14 +130,17 @@ def sweep (R : List (Nat × Nat)) (r : Res) (s : TS) : Res × TS × Nat :=
     | (some e, s') => (some e, s', (R.filter (fun m => s'.now < s.now + m.2)).length)
 
 /-- leaving a group entered at `T`: returns (what leaves it, state, members left running) -/
-def gexit (T : Int) (ms : List (Nat × Nat)) (r : Res) (s : TS) : Res × TS × Nat :=
+def gexit (anyp : Bool) (T : Int) (ms : List (Nat × Nat)) (r : Res) (s : TS) : Res × TS × Nat :=
   match r with
   | some e => sweep (runningAt T ms s.now) (some e) s
   | none =>
     if (runningAt T ms s.now).isEmpty then (none, s, 0)
+    else if anyp && decide ((runningAt T ms s.now).length < ms.length) then
+      -- wait = any and somebody has finished already: stop the others at once
+      sweep (runningAt T ms s.now) none s
     else
-      match doSleep s (T + maxNat (ms.map (·.1)) - s.now).toNat with
-      | (none, s') => (none, s', 0)
+      match doSleep s (T + (if anyp then minNat (ms.map (·.1)) else maxNat (ms.map (·.1))) - s.now).toNat with
+      | (none, s') => if anyp then sweep (runningAt T ms s'.now) none s' else (none, s', 0)
       | (some e, s') => sweep (runningAt T ms s'.now) (some e) s'
 
 def run (fixed : Bool) : Prog → TS → Res × TS × List Ev
@@ -156,9 +165,9 @@ def run (fixed : Bool) : Prog → TS → Res × TS × List Ev
       let (r, s1, e1) := run fixed body s0
       let (r', expired, s2) := aexit fixed ig d r s1
       (r', s2, e1 ++ [Ev.exit d r' expired s2.now])
-  | .group ms body, s =>
+  | .group anyp ms body, s =>
       let (r, s1, e1) := run fixed body s
-      let (r', s2, left) := gexit s.now ms r s1
+      let (r', s2, left) := gexit anyp s.now ms r s1
       (r', s2, e1 ++ [Ev.gexit r' left s2.now])
 
 -- F13 witness
